@@ -57,3 +57,43 @@ Proof. vm_compute. reflexivity. Qed.
 Example C18_ex_diff :
   diff_validators [(1, 5); (2, 7); (3, 7)] [(2, 7); (3, 8); (4, 1)] = [(1, 0); (3, 8); (4, 1)].
 Proof. vm_compute. reflexivity. Qed.
+
+(* ---- standalone -> consumer changeover (x/ccv/consumer/keeper/changeover.go; the map initialUpdatesFlag is used for
+   lookup only).  Whatever the standalone validator set was, once CometBFT has applied the updates returned by the
+   changeover EndBlock (power 0 removes, any other power sets, last writer wins), the consensus set is exactly the
+   provider's initial validator set: every provider validator at its power, every other standalone validator gone. *)
+Theorem C18_changeover_hands_over : forall init standalone k,
+  (forall x, In x init -> 0 < upow x) ->
+  lookup k (tm_apply (changeover_updates init standalone) standalone) = lookup_last k init.
+Proof. intros; now apply changeover_hands_over_pos. Qed.
+
+(* without the positivity guard (the genesis validation rejects zero powers): a zero-power entry means "absent" *)
+Theorem C18_changeover_hands_over_general : forall init standalone k,
+  lookup k (tm_apply (changeover_updates init standalone) standalone) =
+  match lookup_last k init with Some p => if p =? 0 then None else Some p | None => None end.
+Proof. exact changeover_hands_over. Qed.
+
+(* the returned slice is the stored initial set, unchanged and in stored order, followed only by removals of standalone
+   validators that are not provider validators, in staking order: nothing in it depends on a map iteration *)
+Theorem C18_changeover_shape : forall init standalone,
+  firstn (length init) (changeover_updates init standalone) = init /\
+  forall x, In x (skipn (length init) (changeover_updates init standalone)) ->
+            upow x = 0 /\ has_key (ukey x) init = false /\ has_key (ukey x) standalone = true.
+Proof. intros; split; [apply changeover_prefix | apply changeover_tail]. Qed.
+
+(* the changeover is complete exactly from init genesis height + ValidatorUpdateDelay + 1 on, and stays complete *)
+Theorem C18_changeover_complete : forall init_h h,
+  (changeover_complete init_h h = true <-> init_h + 2 <= h) /\
+  (changeover_complete init_h h = true -> changeover_complete init_h (h + 1) = true).
+Proof.
+  intros; split; [apply changeover_complete_spec|].
+  rewrite !changeover_complete_spec. intros H. apply Z.le_trans with h; [exact H | apply Z.le_succ_diag_r].
+Qed.
+
+(* non-vacuity: provider set {1:5, 4:7}; standalone set {1, 2, 3} -> 2 and 3 are removed, 1 is re-powered, 4 joins *)
+Example C18_ex_changeover :
+  changeover_updates [(1, 5); (4, 7)] [(3, 9); (1, 8); (2, 1)] = [(1, 5); (4, 7); (3, 0); (2, 0)] /\
+  tm_apply (changeover_updates [(1, 5); (4, 7)] [(3, 9); (1, 8); (2, 1)]) [(3, 9); (1, 8); (2, 1)] = [(1, 5); (4, 7)] /\
+  handed_over [(1, 5); (4, 7)] [(3, 9); (1, 8); (2, 1)] [(1, 5); (4, 7); (3, 0); (2, 0)] = true /\
+  handed_over [(1, 5); (4, 7)] [(3, 9); (1, 8); (2, 1)] [(1, 5); (4, 7); (3, 0)] = false.
+Proof. vm_compute. repeat split. Qed.
